@@ -61,7 +61,7 @@ inline uint64_t                                 rnd_seed = 0;
 inline long                                     g_icount = 0;
 inline std::map<std::string, int>               name_count;
 
-enum { K_DONE = 0, K_PRUNED, K_EXCLUDED, K_VIOLATION, K_INCONCLUSIVE, K_TRUNCATED, K_CRASH };
+enum { K_DONE = 0, K_PRUNED, K_EXCLUDED, K_VIOLATION, K_INCONCLUSIVE, K_TRUNCATED, K_CRASH, K_FAULT };
 [[noreturn]] void finish(int kind, const char* reason);
 
 inline double now()
@@ -551,6 +551,53 @@ void write_summary();
         label((std::string("inconclusive: ") + reason).c_str())->checked++;
         break;
     case K_TRUNCATED: S->truncated++; break;
+    case K_FAULT:
+    {
+        // the interpreted REAL code faulted (null dereference, division by zero, abort, uncaught exception, ...) on a feasible
+        // path: reported like a violated obligation, with the path's model as the failing input (confirmed by the native replay
+        // dying / throwing the same way)
+        static bool in_fault = false;
+        if (concrete_mode || in_fault)
+        {
+            S->crashed++;
+            label((std::string("crash: ") + reason).c_str())->checked++;
+            break;
+        }
+        in_fault = true;
+        QR r     = query(nullptr);
+        if (r.r == z3::unsat)
+        {
+            S->pruned++;
+            break;
+        }
+        std::string lab = std::string("fault: ") + reason;
+        Label*      l   = label(lab.c_str());
+        l->checked++;
+        l->violated++;
+        S->obligations++;
+        S->paths++;
+        S->violations++;
+        long k = S->nviolfiles.fetch_add(1);
+        if (k < 20 && !g_out.empty())
+        {
+            std::string f = g_out + ".viol." + std::to_string(k) + ".json";
+            std::string o = "{\n \"label\": \"";
+            json_escape(o, lab);
+            o += "\",\n \"config\": \"";
+            json_escape(o, g_config);
+            o += "\",\n \"rounding_level\": false,\n \"fault\": true,\n \"obligation\": \"the real code must not fault on this path\",\n \"choices\": {},\n \"notes\": [],\n \"values\": ";
+            o += r.m ? model_json(*r.m) : std::string("{}");
+            o += "\n}\n";
+            int fd = open(f.c_str(), O_WRONLY | O_CREAT | O_TRUNC, 0644);
+            if (fd >= 0)
+            {
+                (void)!write(fd, o.data(), o.size());
+                close(fd);
+            }
+        }
+        if (S->violations.load() >= max_viol) S->stop.store(1);
+        break;
+    }
     default:
         S->crashed++;
         label((std::string("crash: ") + reason).c_str())->checked++;
